@@ -2,6 +2,7 @@ package main
 
 import (
 	"fmt"
+	"sort"
 	"go/token"
 	"go/types"
 
@@ -169,4 +170,72 @@ found:
 			x.sc.note("ASSUMED at select %d: %s", ac.K, ac.Clause.Text)
 		}
 	}
+}
+
+// storedField names the struct field an ssa.Store writes ("T.f"), or "".
+func storedField(t *ssa.Store) string {
+	fa, ok := t.Addr.(*ssa.FieldAddr)
+	if !ok {
+		return ""
+	}
+	pt, ok := fa.X.Type().Underlying().(*types.Pointer)
+	if !ok {
+		return ""
+	}
+	st, ok := pt.Elem().Underlying().(*types.Struct)
+	if !ok {
+		return ""
+	}
+	name := "?"
+	if nt, ok := pt.Elem().(*types.Named); ok {
+		name = nt.Obj().Name()
+	}
+	return name + "." + st.Field(fa.Field).Name()
+}
+
+// storeAnchors handles `assert e at store T.f K`: checked right AFTER the K-th assignment (in source order) to
+// field f of a T in this function.
+func (x *Exec) storeAnchors(fr *Frame, t *ssa.Store, st *State, reach Term) {
+	if !fr.isTop || x.fc == nil || x.curBlock == nil {
+		return
+	}
+	fld := storedField(t)
+	if fld == "" {
+		return
+	}
+	for i := range x.fc.Anchors {
+		ac := &x.fc.Anchors[i]
+		if ac.At != "store" || ac.Callee != fld || x.storeTarget(fr.fn, ac) != t {
+			continue
+		}
+		b, idx := x.curBlock, x.curIdx+1
+		env := &Env{vars: map[string]Val{}, cur: st, old: x.old, pkg: fr.fn.Pkg.Pkg, fr: fr, at: b, x: x, freshLo: "allocBase0"}
+		for n, v := range x.entryEnv.vars {
+			env.vars[n] = v
+		}
+		env.lookup = func(name string) (Val, bool) { return x.lookupVar(fr, b, idx, name, env.cur) }
+		tm := x.trBool(ac.Clause.Expr, env)
+		if ac.Kind == "assert" {
+			x.oblige("order", fmt.Sprintf("%s@store:%s#%d", labelOr(ac.Clause.Label, 0), fld, ac.K), implies(reach, tm), t.Pos(), ac.Clause.Text)
+		} else {
+			x.sc.assert(implies(reach, tm))
+			x.sc.note("ASSUMED at store %s: %s", fld, ac.Clause.Text)
+		}
+	}
+}
+
+func (x *Exec) storeTarget(fn *ssa.Function, ac *AnchorClause) *ssa.Store {
+	var cands []*ssa.Store
+	for _, b := range fn.Blocks {
+		for _, in := range b.Instrs {
+			if s, ok := in.(*ssa.Store); ok && storedField(s) == ac.Callee {
+				cands = append(cands, s)
+			}
+		}
+	}
+	sort.SliceStable(cands, func(i, j int) bool { return cands[i].Pos() < cands[j].Pos() })
+	if ac.K >= 1 && ac.K <= len(cands) {
+		return cands[ac.K-1]
+	}
+	return nil
 }
